@@ -166,11 +166,6 @@ func (fv *FuncVC) runLoop(ls *loopSpec, st *State) *State {
 	}
 	mark := fv.th.fresh
 	head := st.clone()
-	for _, o := range ls.vars {
-		if _, ok := head.vars[o]; ok {
-			head.vars[o] = fv.havocVal(head, o.Name(), o.Type())
-		}
-	}
 	known := make([]string, 0, len(fv.heapSort))
 	for h := range fv.heapSort {
 		known = append(known, h)
@@ -180,6 +175,13 @@ func (fv *FuncVC) runLoop(ls *loopSpec, st *State) *State {
 	for _, h := range known {
 		pre[h] = fv.getHeap(st, h)
 		head.heaps[h] = fv.th.freshConst(sanitize(h)+"$head", fv.heapSort[h])
+	}
+	// the variables assigned by the loop are unknown at the head of an arbitrary iteration; what they point to is
+	// allocated in the heap OF THAT ITERATION (it may have been allocated by an earlier iteration, not before the loop)
+	for _, o := range ls.vars {
+		if _, ok := head.vars[o]; ok {
+			head.vars[o] = fv.havocVal(head, o.Name(), o.Type())
+		}
 	}
 	if ls.prepHead != nil {
 		ls.prepHead(head)
